@@ -391,6 +391,7 @@ class C15(Check):
             cs.append({"kind": "ud-spellings", "udspell": sp})
         cs.append({"kind": "signature-shapes"})
         cs.append({"kind": "versions"})
+        cs.append({"kind": "regather"})
         for zone in seams.ZONES:
             cs.append({"kind": "sgx-zones", "zone": zone})
         return cs
@@ -435,6 +436,12 @@ class C15(Check):
                                             "values": case["values"]}, None, "genuine", stats, vs)
             self.execute("sgx", {"auth": 32, "chain": 3, "values": case["values"]}, None,
                          "genuine", stats, vs)
+            return vs
+        if k == "regather":
+            for legacy in (False, True):
+                for pages in (1, 2, 3, 4):
+                    self.execute("ledger", {"pages": pages, "legacy": legacy, "regather": True},
+                                 None, "genuine", stats, vs)
             return vs
         if k == "versions":
             for key in sorted(kk for kk in self.factories if isinstance(kk, tuple)
@@ -756,6 +763,18 @@ class C15(Check):
             self.stage(r, "onboard", lambda: m.ONB.do_onboard(
                 ns("ledger", operation="onboard", pin=PIN, output_file_path=setup)))
             dev.power_cycle()
+            if cfg.get("regather"):
+                # history: an attestation gathered earlier (other UD value, earlier blockchain
+                # state) is the input certificate of the gathering that counts
+                old_ud = hashlib.sha256(b"earlier" + ud).digest()
+                self.stage(r, "attestation-earlier", lambda: m.LA.do_attestation(
+                    ns("ledger", operation="attestation", pin=PIN, output_file_path=att,
+                       attestation_certificate_file_path=setup,
+                       attestation_ud_source=old_ud.hex())))
+                dev.best_block = hashlib.sha256(b"moved on" + dev.best_block).digest()
+                dev.last_tx_hash = hashlib.sha256(b"moved on" + dev.last_tx_hash).digest()
+                dev.power_cycle()
+                setup = att
             self.stage(r, "attestation", lambda: m.LA.do_attestation(
                 ns("ledger", operation="attestation", pin=PIN, output_file_path=att,
                    attestation_certificate_file_path=setup, attestation_ud_source=self.spell(ud, cfg))))
@@ -782,7 +801,7 @@ class C15(Check):
             sg_msg = L.legacy_message(fac.signer_header, dev.keys_hash())
         else:
             sg_msg = L.powhsm_message(fac.signer_header, b"led", ud, dev.keys_hash(),
-                                      fac.best_block, fac.last_tx_hash[:8], 0)
+                                      dev.best_block, dev.last_tx_hash[:8], 0)
         want = {
             ("device", "message"): (bytes([2]) + fac.cert_header + fac.device.pub65).hex(),
             ("device", "signature"): fac.issuer_sig.hex(), ("device", "signed_by"): "root",
@@ -800,6 +819,9 @@ class C15(Check):
             got = els.get(el, {}).get(k)
             if not same_field(k, got, w):
                 mism.append(("file:%s.%s" % (el, k), got, w))
+        names = [e.get("name") for e in doc.get("elements", [])]
+        if len(names) != len(set(names)):
+            mism.append(("file:one-element-per-name", names, sorted(set(names))))
         if sorted(doc.get("targets", [])) != ["signer", "ui"]:
             mism.append(("file:targets", doc.get("targets"), ["ui", "signer"]))
         with open(pkjson) as f:
@@ -820,8 +842,8 @@ class C15(Check):
                    "Installed Signer version": fac.signer_version})
         if not fac.legacy_signer:
             ws.update({"Platform": "led", "UD value": ud.hex(),
-                       "Best block": fac.best_block.hex(),
-                       "Last transaction signed": fac.last_tx_hash[:8].hex(), "Timestamp": "0"})
+                       "Best block": dev.best_block.hex(),
+                       "Last transaction signed": dev.last_tx_hash[:8].hex(), "Timestamp": "0"})
         for title, s, w in (("ui", ui, wu), ("signer", sg, ws)):
             if s is None:
                 mism.append(("printed:%s-section" % title, None, "present"))
